@@ -283,11 +283,15 @@ func c03NamesExact(c *Ctx, prop string) map[string]bool {
 		// only the twin pair is of interest there
 		specs = []spec{specs[1], specs[3]}
 	}
+	// long names: five labels of 49 letters (250 bytes with their dots) and a
+	// free tail, so that the total length crosses the 253-byte limit
+	longPrefix := strings.Repeat(strings.Repeat("a", 49)+".", 5)
 	type job struct {
-		sp  int
-		L   int
-		bad string
-		err error
+		sp   int
+		L    int
+		long bool
+		bad  string
+		err  error
 	}
 	var jobs []*job
 	fns := make([]*ssa.Function, len(specs))
@@ -300,6 +304,9 @@ func c03NamesExact(c *Ctx, prop string) map[string]bool {
 		for _, L := range lengths {
 			jobs = append(jobs, &job{sp: si, L: L})
 		}
+		for n := 0; n <= 5; n++ {
+			jobs = append(jobs, &job{sp: si, L: n, long: true})
+		}
 	}
 	parallelDo(len(jobs), func(k int) {
 		jb := jobs[k]
@@ -310,6 +317,12 @@ func c03NamesExact(c *Ctx, prop string) map[string]bool {
 		in := ev.StringInput(0, L)
 		for i := range in.Elems {
 			in.Elems[i][7] = 0 // ASCII
+		}
+		free := L
+		if jb.long {
+			el := append(append([][]int(nil), ev.ConstBytes(longPrefix)...), in.Elems...)
+			L = len(el)
+			in = boolfn.Val{Kind: boolfn.KSlice, Elems: el, Lo: 0, Hi: L}
 		}
 		is := func(i int, v byte) int {
 			eq := 1
@@ -374,7 +387,7 @@ func c03NamesExact(c *Ctx, prop string) map[string]bool {
 			}
 			alnum := func(v int) bool { return v >= '0' && v <= '9' || v >= 'a' && v <= 'z' || v >= 'A' && v <= 'Z' }
 			host := func(lo, hi int) int { // [lo,hi) is a hostname label
-				if hi-lo < 1 {
+				if hi-lo < 1 || hi-lo > 63 {
 					return 0
 				}
 				r := m.And(cls(lo, alnum), cls(hi-1, alnum))
@@ -400,7 +413,7 @@ func c03NamesExact(c *Ctx, prop string) map[string]bool {
 			inner := func(lo, hi int) int { // a label that is not the last one
 				switch sp.kind {
 				case "domain":
-					if hi-lo >= 1 {
+					if hi-lo >= 1 && hi-lo <= 63 {
 						return noDot(lo, hi)
 					}
 					return 0
@@ -438,6 +451,9 @@ func c03NamesExact(c *Ctx, prop string) map[string]bool {
 					}
 				}
 			}
+			if L > 253 {
+				want = 0 // longer than a domain name may be
+			}
 			want = m.And(want, plain)
 		}); gerr != nil {
 			jb.err = gerr
@@ -449,7 +465,11 @@ func c03NamesExact(c *Ctx, prop string) map[string]bool {
 			if x := m.And(got, m.Not(want)); x != 0 {
 				d, kind = x, "accepted though the grammar rejects it"
 			}
-			jb.bad = sprintf("the name %s is %s", witnessName(m.Witness(d), L, L), kind)
+			if jb.long {
+				jb.bad = sprintf("the %d-byte name (five labels of 49 letters)+%s is %s", L, witnessName(m.Witness(d), free, free), kind)
+			} else {
+				jb.bad = sprintf("the name %s is %s", witnessName(m.Witness(d), L, L), kind)
+			}
 		}
 	})
 	decided := map[string]bool{}
@@ -467,7 +487,7 @@ func c03NamesExact(c *Ctx, prop string) map[string]bool {
 			if jb.err != nil && !unsup {
 				unsup = true
 				if os.Getenv("GSA_DBG") != "" {
-					fmt.Fprintln(os.Stderr, "exact name validator:", sp.fn, "L =", jb.L, jb.err)
+					fmt.Fprintln(os.Stderr, "exact name validator:", sp.fn, "L =", jb.L, jb.long, jb.err)
 				}
 				c.L.Notef("%s is outside the exact evaluator's grammar at length %d (%v)", sp.fn, jb.L, jb.err)
 			}
@@ -484,7 +504,7 @@ func c03NamesExact(c *Ctx, prop string) map[string]bool {
 		if bad != "" {
 			c.check(false, rule, f, what, nil, bad)
 		} else {
-			c.check(true, rule, f, what, nil, sprintf("equal as Boolean functions for every ASCII name of %v bytes without an ACE prefix", lengths))
+			c.check(true, rule, f, what, nil, sprintf("equal as Boolean functions for every ASCII name of %v bytes without an ACE prefix, and for the names of 250..255 bytes made of five 49-letter labels and a free tail", lengths))
 		}
 	}
 	if n > 0 {
